@@ -70,6 +70,7 @@ static CO_ERR COTPdoEventWrite(struct CO_OBJ_T *obj, struct CO_NODE_T *node, voi
     CO_TMR   *tmr;
     uint32_t  cobid = 0;
     uint16_t  cycTime;
+    uint8_t   type = 254;
     uint16_t  num;
     int16_t   tid;
     CO_ERR    err;
@@ -107,7 +108,9 @@ static CO_ERR COTPdoEventWrite(struct CO_OBJ_T *obj, struct CO_NODE_T *node, voi
     /* start new timer for event when TPDO COB-ID is enabled */
     cod = &node->Dict;
     (void)CODictRdLong(cod, CO_DEV(0x1800+num, 1), &cobid);
-    if ((cobid & CO_TPDO_COBID_OFF) == 0) {
+    /* the event timer belongs to the event-driven transmission types only */
+    (void)CODictRdByte(cod, CO_DEV(0x1800+num, 2), &type);
+    if (((cobid & CO_TPDO_COBID_OFF) == 0) && (type >= 254)) {
         cycTime = (uint16_t)(*(uint16_t *)buffer);
         nmt = &node->Nmt;
         if (nmt->Mode == CO_OPERATIONAL) {
